@@ -1,8 +1,9 @@
-(* C07, token level, a larger expression language: identifiers, binary operators, the prefix operators
-   - + ! ~ * &, subscripts, member accesses (. and ->), the conditional operator and (compound)
-   assignments, nested in any way.  [xt rp e] is the token sequence of the text CGenerator prints for
-   e (operands parenthesised exactly as visit_UnaryOp / visit_ArrayRef / visit_StructRef /
-   visit_TernaryOp / visit_Assignment / visit_BinaryOp do); whenever the whole-parser model finds these
+(* C07, token level, a larger expression language: identifiers, constants, binary operators, the prefix
+   operators - + ! ~ * &, subscripts, member accesses (. and ->), function calls, the conditional
+   operator, (compound) assignments and comma expressions, nested in any way.  [xt rp e] is the token
+   sequence of the text CGenerator prints for e (operands parenthesised exactly as visit_UnaryOp /
+   visit_ArrayRef / visit_StructRef / visit_FuncCall / visit_TernaryOp / visit_Assignment /
+   visit_BinaryOp / visit_ExprList / _visit_expr do); whenever the whole-parser model finds these
    tokens followed by a token that cannot continue an expression, p_expression returns exactly e. *)
 From Coq Require Import String.
 From Coq Require Import List NArith Bool Arith Lia.
@@ -14,15 +15,49 @@ Open Scope nat_scope.
 
 Inductive ex :=
 | XId (a: str)
+| XConst (k: kind) (v: str) (ty: str)
 | XBin (o: str) (l r: ex)
 | XUn (o: str) (e: ex)
 | XIdx (b i: ex)
 | XMem (b: ex) (ty: str) (f: str)
+| XCall (b: ex) (args: list ex)
 | XCond (c t f: ex)
-| XAsg (o: str) (l r: ex).
+| XAsg (o: str) (l r: ex)
+| XComma (es: list ex).
 
-Definition simple (e: ex) : bool := match e with XId _ | XIdx _ _ | XMem _ _ _ => true | _ => false end.
+Definition simple (e: ex) : bool := match e with XId _ | XConst _ _ _ | XIdx _ _ | XMem _ _ _ | XCall _ _ => true | _ => false end.
 Definition isasg (e: ex) : bool := match e with XAsg _ _ _ => true | _ => false end.
+Definition iscomma (e: ex) : bool := match e with XComma _ => true | _ => false end.
+
+Fixpoint size (e: ex) : nat :=
+  match e with
+  | XId _ | XConst _ _ _ => 1
+  | XBin _ l r => S (size l + size r)
+  | XUn _ x => S (size x)
+  | XIdx b i => S (size b + size i)
+  | XMem b _ _ => S (size b)
+  | XCall b args => S (size b + list_sum (map size args))
+  | XCond c t f => S (size c + size t + size f)
+  | XAsg _ l r => S (size l + size r)
+  | XComma es => S (list_sum (map size es))
+  end.
+
+Fixpoint embx (e: ex) : value unit :=
+  match e with
+  | XId a => VNode C_ID [VStr a] None
+  | XConst _ v ty => VNode C_Constant [VStr ty; VStr v] None
+  | XBin o l r => VNode C_BinaryOp [VStr o; embx l; embx r] None
+  | XUn o x => VNode C_UnaryOp [VStr o; embx x] None
+  | XIdx b i => VNode C_ArrayRef [embx b; embx i] None
+  | XMem b ty f => VNode C_StructRef [embx b; VStr ty; VNode C_ID [VStr f] None] None
+  | XCall b args => VNode C_FuncCall [embx b; match args with [] => VNone | _ => VNode C_ExprList [VList (map embx args)] None end] None
+  | XCond c t f => VNode C_TernaryOp [embx c; embx t; embx f] None
+  | XAsg o l r => VNode C_Assignment [VStr o; embx l; embx r] None
+  | XComma es => VNode C_ExprList [VList (map embx es)] None
+  end.
+
+Lemma embx_node : forall e, exists c fs co, embx e = VNode c fs co.
+Proof. intros e; destruct e; cbn; eexists; eexists; eexists; reflexivity. Qed.
 
 Definition unop_ok (o: str) : bool :=
   match punct_kind_l o with Some k => kind_in k [K_AND; K_TIMES; K_PLUS; K_MINUS; K_NOT; K_LNOT] | None => false end.
@@ -30,59 +65,53 @@ Definition asgop_ok (o: str) : bool :=
   match punct_kind_l o with Some k => kind_in k tbl_ASSIGNMENT_OPS | None => false end.
 Definition memop_ok (o: str) : bool :=
   match punct_kind_l o with Some k => kind_eqb k K_PERIOD || kind_eqb k K_ARROW | None => false end.
+(* the token kind of a constant and the type the parser derives from its spelling *)
+Definition const_ok (k: kind) (v ty: str) : bool :=
+  if kind_in k tbl_INT_CONST then match int_const_type (kind_eqb k K_INT_CONST_CHAR) v with Some t => str_eqb t ty | None => false end
+  else if kind_in k tbl_FLOAT_CONST then match float_const_type v with Some t => str_eqb t ty | None => false end
+  else kind_in k tbl_CHAR_CONST && str_eqb ty (s2l "char").
 
 Fixpoint wf (e: ex) : Prop :=
   match e with
   | XId _ => True
+  | XConst k v ty => const_ok k v ty = true
   | XBin o l r => prec_lookup_s o <> None /\ wf l /\ wf r
   | XUn o x => unop_ok o = true /\ wf x
   | XIdx b i => wf b /\ wf i
   | XMem b ty _ => memop_ok ty = true /\ wf b
+  | XCall b args => wf b /\ (fix wl (l: list ex) : Prop := match l with [] => True | x :: r => wf x /\ wl r end) args
   | XCond c t f => wf c /\ wf t /\ wf f
-  | XAsg o l r => asgop_ok o = true /\ isasg l = false /\ wf l /\ wf r
+  | XAsg o l r => asgop_ok o = true /\ isasg l = false /\ iscomma l = false /\ wf l /\ wf r
+  | XComma es => 2 <= length es /\ (fix wl (l: list ex) : Prop := match l with [] => True | x :: r => wf x /\ wl r end) es
   end.
-
-Fixpoint size (e: ex) : nat :=
-  match e with
-  | XId _ => 1
-  | XBin _ l r => S (size l + size r)
-  | XUn _ x => S (size x)
-  | XIdx b i => S (size b + size i)
-  | XMem b _ _ => S (size b)
-  | XCond c t f => S (size c + size t + size f)
-  | XAsg _ l r => S (size l + size r)
-  end.
-
-Fixpoint embx (e: ex) : value unit :=
-  match e with
-  | XId a => VNode C_ID [VStr a] None
-  | XBin o l r => VNode C_BinaryOp [VStr o; embx l; embx r] None
-  | XUn o x => VNode C_UnaryOp [VStr o; embx x] None
-  | XIdx b i => VNode C_ArrayRef [embx b; embx i] None
-  | XMem b ty f => VNode C_StructRef [embx b; VStr ty; VNode C_ID [VStr f] None] None
-  | XCond c t f => VNode C_TernaryOp [embx c; embx t; embx f] None
-  | XAsg o l r => VNode C_Assignment [VStr o; embx l; embx r] None
-  end.
-Lemma embx_node : forall e, exists c fs co, embx e = VNode c fs co.
-Proof. intros e; destruct e; cbn; eexists; eexists; eexists; reflexivity. Qed.
+Definition wfl (l: list ex) : Prop := (fix wl (l: list ex) : Prop := match l with [] => True | x :: r => wf x /\ wl r end) l.
+Lemma wfl_Forall : forall l, wfl l -> Forall wf l.
+Proof. induction l as [|x r IH]; intros H; [constructor|]. destruct H as [H1 H2]. constructor; [exact H1|apply IH; exact H2]. Qed.
 
 Section Toks.
 Variable rp : bool.
 Definition keepLx (o: str) (l: ex) : bool := match l with XBin ol _ _ => rp && (gprec o <=? gprec ol) | _ => false end.
 Definition keepRx (o: str) (r: ex) : bool := match r with XBin orr _ _ => rp && (gprec o <? gprec orr) | _ => false end.
-Definition wrap (e: ex) (te: list (kind * str)) : list (kind * str) := if simple e then te else parkv te.
+Definition vx (e: ex) (te: list (kind * str)) : list (kind * str) := if iscomma e then parkv te else te.     (* _visit_expr *)
+Definition wrap (e: ex) (te: list (kind * str)) : list (kind * str) := if simple e then te else parkv (vx e te).
+Fixpoint commas (l: list (list (kind * str))) : list (kind * str) :=
+  match l with [] => [] | [x] => x | x :: r => x ++ (K_COMMA, s2l ",") :: commas r end.
 
 Fixpoint xt (e: ex) : list (kind * str) :=
   match e with
   | XId a => [(K_ID, a)]
+  | XConst k v _ => [(k, v)]
   | XBin o l r => (if keepLx o l then xt l else wrap l (xt l)) ++ (opk o, o) :: (if keepRx o r then xt r else wrap r (xt r))
   | XUn o x => (opk o, o) :: wrap x (xt x)
   | XIdx b i => wrap b (xt b) ++ (K_LBRACKET, s2l "[") :: xt i ++ [(K_RBRACKET, s2l "]")]
   | XMem b ty f => wrap b (xt b) ++ [(opk ty, ty); (K_ID, f)]
-  | XCond c t f => parkv (xt c) ++ (K_CONDOP, s2l "?") :: parkv (xt t) ++ (K_COLON, s2l ":") :: parkv (xt f)
-  | XAsg o l r => xt l ++ (opk o, o) :: (if isasg r then parkv (xt r) else xt r)
+  | XCall b args => wrap b (xt b) ++ (K_LPAREN, s2l "(") :: commas (map (fun a => vx a (xt a)) args) ++ [(K_RPAREN, s2l ")")]
+  | XCond c t f => parkv (vx c (xt c)) ++ (K_CONDOP, s2l "?") :: parkv (vx t (xt t)) ++ (K_COLON, s2l ":") :: parkv (vx f (xt f))
+  | XAsg o l r => xt l ++ (opk o, o) :: (if isasg r then parkv (xt r) else vx r (xt r))
+  | XComma es => commas (map (fun a => vx a (xt a)) es)
   end.
 Definition opnd (e: ex) : list (kind * str) := wrap e (xt e).
+Definition argt (e: ex) : list (kind * str) := vx e (xt e).
 
 (* the maximal tree of binary operators at the top of e; its leaves are the operands *)
 Fixpoint to_gt (e: ex) : GenParen.gt ex str :=
@@ -90,7 +119,7 @@ Fixpoint to_gt (e: ex) : GenParen.gt ex str :=
 
 Lemma xt_bin : forall e, xt e = match e with XBin _ _ _ => kvg rp ex opnd (to_gt e) | _ => xt e end.
 Proof.
-  induction e as [a|o l IHl r IHr|o x IHx|b IHb i IHi|b IHb ty f|c IHc t IHt f IHf|o l IHl r IHr]; try reflexivity.
+  induction e as [a|k v ty|o l IHl r IHr|o x IHx|b IHb i IHi|b IHb ty f|b IHb args|c IHc t IHt f IHf|o l IHl r IHr|es]; try reflexivity.
   cbn [xt to_gt kvg].
   assert (HL: (if keepLx o l then xt l else wrap l (xt l)) =
               (if GenParen.keepL ex str gprec rp o (to_gt l) then kvg rp ex opnd (to_gt l)
@@ -123,11 +152,11 @@ Proof. intros k H. destruct k; vm_compute in H; try discriminate H; vm_compute; 
 
 (* first token is an identifier or ( *)
 Definition head_idlp (kvs: list (kind * str)) : Prop :=
-  exists k v rest, kvs = (k, v) :: rest /\ (k = K_ID \/ k = K_LPAREN).
+  exists k v rest, kvs = (k, v) :: rest /\ unary_pass k = true.
 Lemma head_idlp_app : forall x y, head_idlp x -> head_idlp (x ++ y).
 Proof. intros x y [k [v [rest [-> H]]]]. exists k, v, (rest ++ y). split; [reflexivity|exact H]. Qed.
 Lemma head_idlp_parkv : forall x, head_idlp (parkv x).
-Proof. intros x. unfold parkv. eexists. eexists. eexists. split; [reflexivity|right; reflexivity]. Qed.
+Proof. intros x. unfold parkv. eexists. eexists. eexists. split; [reflexivity|reflexivity]. Qed.
 
 Section PX.
 Variable P : Type.
@@ -321,13 +350,12 @@ Proof.
   intros kvs X [k [v [rest0 [Ek [Hds [_ Hlp]]]]]] [k' [v' [rest' [Ek' Hhd]]]] HR s la n l HS HU Hq.
   rewrite Ek in Ek'. injection Ek' as <- <- <-.
   pose proof HS as HS0. rewrite Ek in HS. destruct (RoundTrip.Spell_cons_inv P _ _ _ _ HS) as [x1 [tl [-> [Hk1 [_ HStl]]]]]. cbn [app] in HU.
-  assert (Hpass: unary_pass (tk x1) = true) by (rewrite Hk1; destruct Hhd as [-> | ->]; reflexivity).
+  assert (Hpass: unary_pass (tk x1) = true) by (rewrite Hk1; exact Hhd).
   (* the two speculative "( type-name )" attempts give up *)
   assert (Htp: forall s0, Up s0 (x1 :: tl ++ n :: l) -> exists s1, (forall f, try_paren_type_name P (S f) s0 = Ok (None, s1)) /\ Up s1 (x1 :: tl ++ n :: l)).
-  { intros s0 HU0. destruct Hhd as [Hid|Hl].
-    - apply tptn_no_paren; [exact HU0|]. rewrite Hk1, Hid. reflexivity.
-    - assert (El: kind_eqb k K_LPAREN = true) by (rewrite Hl; reflexivity).
-      destruct (Hlp El) as [k2 [v2 [rest2 [-> [_ Hd2]]]]].
+  { intros s0 HU0. destruct (kind_eqb k K_LPAREN) eqn:El.
+    2: { apply tptn_no_paren; [exact HU0|]. rewrite Hk1. exact El. }
+    - destruct (Hlp eq_refl) as [k2 [v2 [rest2 [-> [_ Hd2]]]]].
       destruct (RoundTrip.Spell_cons_inv P _ _ _ _ HStl) as [x2 [tl2 [-> [Hk2 [_ _]]]]]. cbn [app] in HU0 |- *.
       apply tptn_not_type; [exact HU0|rewrite Hk1; exact El|rewrite Hk2; exact Hd2]. }
   destruct (Htp s HU) as [s1 [H1 HU1]].
@@ -341,6 +369,186 @@ Proof.
   rewrite (postfix_eq P). unfold bind at 1. rewrite H3. unfold bind at 1. unfold complit_of at 1. unfold ret at 1.
   destruct (Hred (S f)) as [f1 [Hf1 E1]]; [lia|]. rewrite E1. destruct f1 as [|g]; [lia|]. apply H5.
 Qed.
+(* ---- constants ---- *)
+Lemma const_kind_facts : forall k, kind_in k tbl_INT_CONST || kind_in k tbl_FLOAT_CONST || kind_in k tbl_CHAR_CONST = true ->
+  okind_is (Some k) K_ID = false /\ startk k = true /\ kind_eqb k K_LBRACE = false /\ kind_eqb k K_LPAREN = false.
+Proof. intros k H. destruct k; vm_compute in H; try discriminate H; vm_compute; repeat split. Qed.
+
+Lemma const_ok_kind : forall k v ty, const_ok k v ty = true ->
+  kind_in k tbl_INT_CONST || kind_in k tbl_FLOAT_CONST || kind_in k tbl_CHAR_CONST = true.
+Proof.
+  intros k v ty H. unfold const_ok in H. destruct (kind_in k tbl_INT_CONST); [reflexivity|].
+  destruct (kind_in k tbl_FLOAT_CONST); [reflexivity|]. apply andb_true_iff in H. destruct H as [H _]. rewrite H. reflexivity.
+Qed.
+
+Lemma R_const : forall k v ty, const_ok k v ty = true -> R [(k, v)] (VNode C_Constant [VStr ty; VStr v] None).
+Proof.
+  intros k v ty Hc s le rest HS HU. destruct (RoundTrip.Spell_cons_inv P _ _ _ _ HS) as [t [l2 [-> [Hk [Hv HS2]]]]].
+  apply (RoundTrip.Spell_nil_inv P) in HS2. subst l2. cbn [app] in HU.
+  pose proof (const_ok_kind _ _ _ Hc) as Hkk. destruct (const_kind_facts _ Hkk) as (HnoID & _).
+  destruct (peek_kind_up P s t _ HU) as [s1 [H1 [HU1 _]]].
+  destruct (advance_up P s1 t _ HU1) as [s2 [H2 [HU2 _]]].
+  exists 1, (mkConstant P ty (tv t) (Some (mkCoord P (curfile P s2) (tp t)))), s2. split; [exact HU2|].
+  split; [unfold mkConstant, mkN; cbn [strip map]; rewrite Hv; reflexivity|].
+  intros f Hf. destruct f as [|f]; [lia|]. exists (S f). split; [lia|].
+  unfold bind at 1. rewrite (primary_eq P). unfold bind at 1. rewrite H1. rewrite Hk, HnoID.
+  change (okind_in (Some k) tbl_INT_CONST || okind_in (Some k) tbl_FLOAT_CONST || okind_in (Some k) tbl_CHAR_CONST)
+    with (kind_in k tbl_INT_CONST || kind_in k tbl_FLOAT_CONST || kind_in k tbl_CHAR_CONST). rewrite Hkk.
+  unfold p_constant. unfold bind at 1. rewrite H2. unfold bind at 1. rewrite tok_coord_eq. rewrite Hk, Hv.
+  unfold const_ok in Hc. destruct (kind_in k tbl_INT_CONST).
+  - destruct (int_const_type (kind_eqb k K_INT_CONST_CHAR) v) as [t0|]; [|discriminate Hc]. apply str_eqb_eq in Hc. subst t0. reflexivity.
+  - destruct (kind_in k tbl_FLOAT_CONST).
+    + destruct (float_const_type v) as [t0|]; [|discriminate Hc]. apply str_eqb_eq in Hc. subst t0. reflexivity.
+    + apply andb_true_iff in Hc. destruct Hc as [Hc1 Hc2]. rewrite Hc1. apply str_eqb_eq in Hc2. subst ty. reflexivity.
+Qed.
+
+(* ---- lists of assignment-expressions separated by commas ---- *)
+Definition ctoks (kl: list (list (kind * str) * value unit)) : list (kind * str) :=
+  concat (map (fun kx => (K_COMMA, s2l ",") :: fst kx) kl).
+
+Lemma comma_run : forall kl, Forall (fun kx => AsgS (fst kx) (snd kx)) kl ->
+  forall (s: pstate) le (stop: tok) l0, Spell le (ctoks kl) -> Up s (le ++ stop :: l0) -> estop (tk stop) = true ->
+  exists f0 Ns s', (forall f, f0 <= f -> p_comma_exprs P f s = Ok (Ns, s')) /\ Up s' (stop :: l0) /\ map strip Ns = map snd kl.
+Proof.
+  induction kl as [|[k1 X1] kl IH]; intros HF s le stop l0 HS HU Hst.
+  - apply (RoundTrip.Spell_nil_inv P) in HS. subst le. cbn [app] in HU.
+    destruct (estop_facts _ Hst) as [_ [_ [_ Hcomma]]].
+    destruct (accept_miss P s stop l0 K_COMMA HU Hcomma) as [s1 [H1 [HU1 _]]].
+    exists 1, [], s1. split; [|split; [exact HU1|reflexivity]]. intros f Hf. destruct f as [|f]; [lia|].
+    rewrite (comma_eq P). unfold bind at 1. rewrite H1. reflexivity.
+  - inversion HF as [|x y HA HF']; subst x y. cbn [fst snd] in HA.
+    unfold ctoks in HS. cbn [map concat fst] in HS. cbn [app] in HS.
+    destruct (RoundTrip.Spell_cons_inv P _ _ _ _ HS) as [cm [l2 [-> [Hck [_ HS2]]]]].
+    destruct (RoundTrip.Spell_app_inv P _ _ _ HS2) as [l1 [lr [-> [HS1 HSr]]]].
+    cbn [app] in HU. rewrite <- app_assoc in HU.
+    assert (Hcc: kind_eqb (tk cm) K_COMMA = true) by (rewrite Hck; reflexivity).
+    destruct (accept_hit P s cm _ K_COMMA HU Hcc) as [s1 [H1 [HU1 _]]].
+    (* the token after this element: the next comma, or the final stop *)
+    assert (Hnext: exists n l', lr ++ stop :: l0 = n :: l' /\ astop (tk n) = true).
+    { destruct kl as [|[k2 X2] kl'].
+      - apply (RoundTrip.Spell_nil_inv P) in HSr. subst lr. exists stop, l0. split; [reflexivity|apply estop_astop; exact Hst].
+      - unfold ctoks in HSr. cbn [map concat fst app] in HSr. destruct (RoundTrip.Spell_cons_inv P _ _ _ _ HSr) as [c2 [l3 [-> [Hc2 _]]]].
+        exists c2, (l3 ++ stop :: l0). split; [reflexivity|rewrite Hc2; reflexivity]. }
+    destruct Hnext as [n [l' [En Hn]]]. rewrite En in HU1.
+    destruct (HA s1 l1 n l' HS1 HU1 Hn) as [f1 [N1 [s2 [H2 [HU2 HN1]]]]]. rewrite <- En in HU2.
+    destruct (IH HF' s2 lr stop l0 HSr HU2 Hst) as [f2 [Ns [s3 [H3 [HU3 HNs]]]]].
+    exists (S (Nat.max f1 f2)), (N1 :: Ns), s3. split; [|split; [exact HU3|cbn [map snd]; rewrite HN1, HNs; reflexivity]].
+    intros f Hf. destruct f as [|f]; [lia|]. rewrite (comma_eq P). unfold bind at 1. rewrite H1.
+    unfold bind at 1. rewrite (H2 f) by lia. unfold bind at 1. rewrite (H3 f) by lia. reflexivity.
+Qed.
+
+Lemma commas_cons : forall (x: list (kind * str)) r, commas (x :: r) = x ++ concat (map (fun y => (K_COMMA, s2l ",") :: y) r).
+Proof.
+  intros x r. revert x. induction r as [|y r IH]; intros x; [cbn; rewrite app_nil_r; reflexivity|].
+  change (commas (x :: y :: r)) with (x ++ (K_COMMA, s2l ",") :: commas (y :: r)). rewrite IH. cbn [map concat app]. reflexivity.
+Qed.
+
+(* a comma expression e1, e2, ... : ExprList *)
+Lemma expr_comma : forall k1 X1 k2 X2 kl c fs co, X1 = VNode c fs co -> AsgS k1 X1 -> AsgS k2 X2 ->
+  Forall (fun kx => AsgS (fst kx) (snd kx)) kl ->
+  ExprS (commas (k1 :: k2 :: map fst kl)) (VNode C_ExprList [VList (X1 :: X2 :: map snd kl)] None).
+Proof.
+  intros k1 X1 k2 X2 kl c fs co EX HA1 HA2 HF s le stop l0 HS HU Hst.
+  rewrite commas_cons in HS. cbn [map concat] in HS.
+  destruct (RoundTrip.Spell_app_inv P _ _ _ HS) as [l1 [lr [-> [HS1 HSr]]]]. cbn [app] in HSr.
+  destruct (RoundTrip.Spell_cons_inv P _ _ _ _ HSr) as [cm [l2 [-> [Hck [_ HS2]]]]].
+  destruct (RoundTrip.Spell_app_inv P _ _ _ HS2) as [l2' [l3 [-> [HS2' HS3]]]].
+  rewrite <- app_assoc in HU. cbn [app] in HU. rewrite <- app_assoc in HU.
+  assert (Hca: astop (tk cm) = true) by (rewrite Hck; reflexivity).
+  destruct (HA1 s l1 cm _ HS1 HU Hca) as [f1 [N1 [s1 [H1 [HU1 HN1]]]]].
+  assert (Hcc: kind_eqb (tk cm) K_COMMA = true) by (rewrite Hck; reflexivity).
+  destruct (accept_hit P s1 cm _ K_COMMA HU1 Hcc) as [s2 [H2 [HU2 _]]].
+  assert (HS3': Spell l3 (ctoks kl)).
+  { unfold ctoks. unfold RoundTrip.Spell in *. rewrite HS3. rewrite map_map. reflexivity. }
+  assert (Hnext: exists n l', l3 ++ stop :: l0 = n :: l' /\ astop (tk n) = true).
+  { destruct kl as [|[k3 X3] kl'].
+    - apply (RoundTrip.Spell_nil_inv P) in HS3'. subst l3. exists stop, l0. split; [reflexivity|apply estop_astop; exact Hst].
+    - unfold ctoks in HS3'. cbn [map concat fst app] in HS3'. destruct (RoundTrip.Spell_cons_inv P _ _ _ _ HS3') as [c2 [l4 [-> [Hc2 _]]]].
+      exists c2, (l4 ++ stop :: l0). split; [reflexivity|rewrite Hc2; reflexivity]. }
+  destruct Hnext as [n [l' [En Hn]]]. rewrite En in HU2.
+  destruct (HA2 s2 l2' n l' HS2' HU2 Hn) as [f2 [N2 [s3 [H3 [HU3 HN2]]]]]. rewrite <- En in HU3.
+  destruct (comma_run kl HF s3 l3 stop l0 HS3' HU3 Hst) as [f3 [Ns [s4 [H4 [HU4 HNs]]]]].
+  rewrite EX in HN1. destruct (strip_vnode _ _ _ _ HN1) as [fs' [co' EN1]].
+  exists (S (Nat.max f1 (Nat.max f2 f3))), (mkN P C_ExprList [VList (N1 :: N2 :: Ns)] co'), s4. split; [|split; [exact HU4|]].
+  - intros f Hf. destruct f as [|f]; [lia|]. rewrite (expr_eq P). unfold bind at 1. rewrite (H1 f) by lia.
+    unfold bind at 1. rewrite H2. unfold bind at 1. rewrite (H3 f) by lia. unfold bind at 1. rewrite (H4 f) by lia.
+    unfold bind at 1. unfold coordA, lift_opt. rewrite EN1. cbn [get_coord]. reflexivity.
+  - unfold mkN. cbn [strip map]. rewrite HN1, HN2, HNs, EX. reflexivity.
+Qed.
+
+(* ---- function calls ---- *)
+Lemma R_call0 : forall kb Xb c fs co, Xb = VNode c fs co -> R kb Xb ->
+  R (kb ++ (K_LPAREN, s2l "(") :: [] ++ [(K_RPAREN, s2l ")")]) (VNode C_FuncCall [Xb; VNone] None).
+Proof.
+  intros kb Xb c fs co EX HRb s le rest HS HU.
+  destruct (RoundTrip.Spell_app_inv P _ _ _ HS) as [lb [l2 [-> [HSb HS2]]]]. cbn [app] in HS2.
+  destruct (RoundTrip.Spell_cons_inv P _ _ _ _ HS2) as [lp [l3 [-> [Hlk [_ HS3]]]]].
+  destruct (RoundTrip.Spell_cons_inv P _ _ _ _ HS3) as [rpt [l4 [-> [Hrk [_ HS4]]]]]. apply (RoundTrip.Spell_nil_inv P) in HS4. subst l4.
+  rewrite <- app_assoc in HU. cbn [app] in HU.
+  destruct (HRb s lb _ HSb HU) as [db [Nb [s1 [HU1 [HNb Hred]]]]].
+  assert (HnoLB: kind_eqb (tk lp) K_LBRACKET = false) by (rewrite Hlk; reflexivity).
+  destruct (accept_miss P s1 lp _ K_LBRACKET HU1 HnoLB) as [s2 [H2 [HU2 _]]].
+  assert (HLP: kind_eqb (tk lp) K_LPAREN = true) by (rewrite Hlk; reflexivity).
+  destruct (accept_hit P s2 lp _ K_LPAREN HU2 HLP) as [s3 [H3 [HU3 _]]].
+  destruct (peek_kind_up P s3 rpt _ HU3) as [s4 [H4 [HU4 _]]].
+  destruct (advance_up P s4 rpt _ HU4) as [s5 [H5 [HU5 _]]].
+  rewrite EX in HNb. destruct (strip_vnode _ _ _ _ HNb) as [fs' [co' ENb]].
+  exists (db + 1), (mkN P C_FuncCall [Nb; VNone] co'), s5. split; [exact HU5|]. split; [unfold mkN; cbn [strip map]; rewrite HNb, EX; reflexivity|].
+  intros f Hf. destruct (Hred f) as [f1 [Hf1 E1]]; [lia|]. destruct f1 as [|g]; [lia|]. exists g. split; [lia|].
+  rewrite E1. rewrite (UnaryShape.suffix_eq P). unfold bind at 1. rewrite H2. unfold bind at 1. rewrite H3.
+  unfold bind at 1. rewrite H4. rewrite Hrk. cbn [okind_is]. change (kind_eqb K_RPAREN K_RPAREN) with true. cbv iota.
+  unfold bind at 1. unfold bind at 1. rewrite H5. unfold ret at 1.
+  unfold bind at 1. unfold coordA, lift_opt. rewrite ENb. cbn [get_coord]. reflexivity.
+Qed.
+
+Lemma R_call : forall kb Xb k1 X1 kl c fs co c1 fs1 co1, Xb = VNode c fs co -> X1 = VNode c1 fs1 co1 -> R kb Xb ->
+  first_ok k1 -> AsgS k1 X1 -> Forall (fun kx => AsgS (fst kx) (snd kx)) kl ->
+  R (kb ++ (K_LPAREN, s2l "(") :: commas (k1 :: map fst kl) ++ [(K_RPAREN, s2l ")")])
+    (VNode C_FuncCall [Xb; VNode C_ExprList [VList (X1 :: map snd kl)] None] None).
+Proof.
+  intros kb Xb k1 X1 kl c fs co c1 fs1 co1 EX EX1 HRb Hfo HA1 HF s le rest HS HU.
+  destruct (RoundTrip.Spell_app_inv P _ _ _ HS) as [lb [l2 [-> [HSb HS2]]]].
+  destruct (RoundTrip.Spell_cons_inv P _ _ _ _ HS2) as [lp [l3 [-> [Hlk [_ HS3]]]]].
+  destruct (RoundTrip.Spell_app_inv P _ _ _ HS3) as [la [l4 [-> [HSa HS4]]]].
+  destruct (RoundTrip.Spell_cons_inv P _ _ _ _ HS4) as [rpt [l5 [-> [Hrk [_ HS5]]]]]. apply (RoundTrip.Spell_nil_inv P) in HS5. subst l5.
+  rewrite commas_cons in HSa. destruct (RoundTrip.Spell_app_inv P _ _ _ HSa) as [l1 [lr [-> [HS1 HSr]]]].
+  rewrite <- app_assoc in HU. cbn [app] in HU. rewrite <- app_assoc in HU. cbn [app] in HU. rewrite <- app_assoc in HU.
+  destruct (HRb s lb _ HSb HU) as [db [Nb [s1 [HU1 [HNb Hred]]]]].
+  assert (HnoLB: kind_eqb (tk lp) K_LBRACKET = false) by (rewrite Hlk; reflexivity).
+  destruct (accept_miss P s1 lp _ K_LBRACKET HU1 HnoLB) as [s2 [H2 [HU2 _]]].
+  assert (HLP: kind_eqb (tk lp) K_LPAREN = true) by (rewrite Hlk; reflexivity).
+  destruct (accept_hit P s2 lp _ K_LPAREN HU2 HLP) as [s3 [H3 [HU3 _]]].
+  (* first token of the first argument: not ')' *)
+  destruct Hfo as [k [v [rest1 [Ek [Hsk _]]]]]. pose proof HS1 as HS1'. rewrite Ek in HS1'.
+  destruct (RoundTrip.Spell_cons_inv P _ _ _ _ HS1') as [x1 [tl1 [El1 [Hkx [_ _]]]]]. subst l1. cbn [app] in HU3.
+  destruct (peek_kind_up P s3 x1 _ HU3) as [s4 [H4 [HU4 _]]].
+  assert (HnoRP: okind_is (Some (tk x1)) K_RPAREN = false) by (rewrite Hkx; exact (proj2 (startk_facts _ Hsk))).
+  assert (HSr': Spell lr (ctoks kl)).
+  { unfold ctoks. unfold RoundTrip.Spell in *. rewrite HSr. rewrite map_map. reflexivity. }
+  assert (Hre: estop (tk rpt) = true) by (rewrite Hrk; reflexivity).
+  assert (Hnext: exists n l', lr ++ rpt :: rest = n :: l' /\ astop (tk n) = true).
+  { destruct kl as [|[k3 X3] kl'].
+    - apply (RoundTrip.Spell_nil_inv P) in HSr'. subst lr. exists rpt, rest. split; [reflexivity|apply estop_astop; exact Hre].
+    - unfold ctoks in HSr'. cbn [map concat fst app] in HSr'. destruct (RoundTrip.Spell_cons_inv P _ _ _ _ HSr') as [c2 [l6 [-> [Hc2 _]]]].
+      exists c2, (l6 ++ rpt :: rest). split; [reflexivity|rewrite Hc2; reflexivity]. }
+  destruct Hnext as [n [l' [En Hn]]].
+  change (x1 :: tl1 ++ lr ++ rpt :: rest) with ((x1 :: tl1) ++ lr ++ rpt :: rest) in HU4. rewrite En in HU4.
+  destruct (HA1 s4 (x1 :: tl1) n l' HS1 HU4 Hn) as [f1 [N1 [s5 [H5 [HU5 HN1]]]]]. rewrite <- En in HU5.
+  destruct (comma_run kl HF s5 lr rpt rest HSr' HU5 Hre) as [f2 [Ns [s6 [H6 [HU6 HNs]]]]].
+  assert (HRP: kind_eqb (tk rpt) K_RPAREN = true) by (rewrite Hrk; reflexivity).
+  destruct (expect_up P s6 rpt _ K_RPAREN HU6 HRP) as [s7 [H7 [HU7 _]]].
+  rewrite EX in HNb. destruct (strip_vnode _ _ _ _ HNb) as [fs' [co' ENb]].
+  rewrite EX1 in HN1. destruct (strip_vnode _ _ _ _ HN1) as [fs1' [co1' EN1]].
+  exists (db + S (S (Nat.max f1 f2))), (mkN P C_FuncCall [Nb; mkN P C_ExprList [VList (N1 :: Ns)] co1'] co'), s7. split; [exact HU7|].
+  split; [unfold mkN; cbn [strip map]; rewrite HNb, HN1, HNs, EX, EX1; reflexivity|].
+  intros f Hf. destruct (Hred f) as [f1' [Hf1 E1]]; [lia|]. destruct f1' as [|[|g]]; try lia. exists (S g). split; [lia|].
+  rewrite E1. rewrite (UnaryShape.suffix_eq P). unfold bind at 1. rewrite H2. unfold bind at 1. rewrite H3.
+  unfold bind at 1. rewrite H4. rewrite HnoRP.
+  unfold bind at 1. unfold bind at 1. rewrite (args_eq P). unfold bind at 1. rewrite (H5 g) by lia.
+  unfold bind at 1. rewrite (H6 g) by lia. unfold bind at 1. unfold coordA at 1, lift_opt. rewrite EN1. cbn [get_coord]. unfold ret at 1.
+  unfold ret at 1. cbv beta iota. unfold bind at 1. rewrite H7. unfold ret at 1. cbv beta iota.
+  unfold bind at 1. unfold coordA, lift_opt. rewrite ENb. cbn [get_coord]. reflexivity.
+Qed.
 End PX.
 
 Section MainX.
@@ -352,38 +560,55 @@ Notation AsgS := (AsgS P).
 Notation ExprS := (ExprS P).
 Notation xt := (xt rp).
 Notation opnd := (opnd rp).
+Notation argt := (argt rp).
 
 (* everything we know about one expression *)
 Definition T (e: ex) : Prop :=
   first_ok (xt e) /\ (simple e = true -> head_idlp (xt e) /\ R P (xt e) (embx e)) /\
-  CastS (opnd e) (embx e) /\ (isasg e = false -> CondS (xt e) (embx e)) /\ AsgS (xt e) (embx e).
+  CastS (opnd e) (embx e) /\ (isasg e = false -> iscomma e = false -> CondS (xt e) (embx e)) /\
+  (iscomma e = false -> AsgS (xt e) (embx e)) /\ ExprS (xt e) (embx e).
 
 Lemma T_expr : forall e, T e -> ExprS (xt e) (embx e).
-Proof. intros e (_ & _ & _ & _ & HA). apply asg_to_expr. exact HA. Qed.
+Proof. intros e (_ & _ & _ & _ & _ & HE). exact HE. Qed.
+Lemma T_first_argt : forall e, T e -> first_ok (argt e).
+Proof. intros e (Hf & _). unfold RoundTripX.argt, vx. destruct (iscomma e); [apply first_ok_parkv; exact Hf|exact Hf]. Qed.
+Lemma T_paren : forall e, T e -> CastS (parkv (xt e)) (embx e).
+Proof. intros e HT. apply paren_to_cast; [exact (proj1 HT)|apply T_expr; exact HT]. Qed.
+Lemma T_asg_argt : forall e, T e -> AsgS (argt e) (embx e).
+Proof.
+  intros e HT. unfold RoundTripX.argt, vx. destruct (iscomma e) eqn:E.
+  - apply cond_to_asg; [apply first_ok_parkv; exact (proj1 HT)|apply cast_to_cond; apply T_paren; exact HT].
+  - destruct HT as (_ & _ & _ & _ & HA & _). exact (HA E).
+Qed.
+Lemma T_expr_argt : forall e, T e -> ExprS (argt e) (embx e).
+Proof. intros e HT. apply asg_to_expr. apply T_asg_argt. exact HT. Qed.
+Lemma T_paren_argt : forall e, T e -> CastS (parkv (argt e)) (embx e).
+Proof. intros e HT. apply paren_to_cast; [apply T_first_argt; exact HT|apply T_expr_argt; exact HT]. Qed.
 Lemma T_first_opnd : forall e, T e -> first_ok (opnd e).
-Proof. intros e (Hf & _). unfold RoundTripX.opnd, wrap. destruct (simple e); [exact Hf|apply first_ok_parkv; exact Hf]. Qed.
+Proof.
+  intros e HT. unfold RoundTripX.opnd, wrap. destruct (simple e); [exact (proj1 HT)|apply first_ok_parkv; exact (T_first_argt e HT)].
+Qed.
 Lemma T_head_opnd : forall e, T e -> head_idlp (opnd e).
 Proof. intros e (_ & Hs & _). unfold RoundTripX.opnd, wrap. destruct (simple e); [exact (proj1 (Hs eq_refl))|apply head_idlp_parkv]. Qed.
 Lemma T_R_opnd : forall e, T e -> R P (opnd e) (embx e).
 Proof.
-  intros e HT. pose proof (T_expr e HT) as HE. destruct HT as (_ & Hs & _). unfold RoundTripX.opnd, wrap.
+  intros e HT. pose proof (T_expr_argt e HT) as HE. destruct HT as (_ & Hs & _). unfold RoundTripX.opnd, wrap.
   destruct (simple e); [exact (proj2 (Hs eq_refl))|apply R_paren; exact HE].
 Qed.
-Lemma T_paren : forall e, T e -> CastS (parkv (xt e)) (embx e).
-Proof. intros e HT. apply paren_to_cast; [exact (proj1 HT)|apply T_expr; exact HT]. Qed.
 
-(* closing a T from its conditional-level / cast-level part *)
-Lemma T_of_cond : forall e, simple e = false -> isasg e = false -> first_ok (xt e) -> CondS (xt e) (embx e) -> T e.
+Lemma T_of_cond : forall e, simple e = false -> isasg e = false -> iscomma e = false -> first_ok (xt e) -> CondS (xt e) (embx e) -> T e.
 Proof.
-  intros e Hs Ha Hf HC. assert (HA: AsgS (xt e) (embx e)) by (apply cond_to_asg; assumption).
-  split; [exact Hf|]. split; [intros E; congruence|]. split; [|split; [intros _; exact HC|exact HA]].
-  unfold RoundTripX.opnd, wrap. rewrite Hs. apply paren_to_cast; [exact Hf|apply asg_to_expr; exact HA].
+  intros e Hs Ha Hc Hf HC. assert (HA: AsgS (xt e) (embx e)) by (apply cond_to_asg; assumption).
+  assert (HE: ExprS (xt e) (embx e)) by (apply asg_to_expr; exact HA).
+  split; [exact Hf|]. split; [intros E; congruence|]. split; [|split; [intros _ _; exact HC|split; [intros _; exact HA|exact HE]]].
+  unfold RoundTripX.opnd, wrap, vx. rewrite Hs, Hc. apply paren_to_cast; assumption.
 Qed.
-Lemma T_of_chain : forall e, simple e = true -> isasg e = false -> first_ok (xt e) -> head_idlp (xt e) -> R P (xt e) (embx e) -> T e.
+Lemma T_of_chain : forall e, simple e = true -> isasg e = false -> iscomma e = false -> first_ok (xt e) -> head_idlp (xt e) -> R P (xt e) (embx e) -> T e.
 Proof.
-  intros e Hs Ha Hf Hh HR. assert (HCa: CastS (xt e) (embx e)) by (apply chain_cast; assumption).
+  intros e Hs Ha Hc Hf Hh HR. assert (HCa: CastS (xt e) (embx e)) by (apply chain_cast; assumption).
   assert (HC: CondS (xt e) (embx e)) by (apply cast_to_cond; exact HCa).
-  split; [exact Hf|]. split; [intros _; split; assumption|]. split; [|split; [intros _; exact HC|apply cond_to_asg; assumption]].
+  assert (HA: AsgS (xt e) (embx e)) by (apply cond_to_asg; assumption).
+  split; [exact Hf|]. split; [intros _; split; assumption|]. split; [|split; [intros _ _; exact HC|split; [intros _; exact HA|apply asg_to_expr; exact HA]]].
   unfold RoundTripX.opnd, wrap. rewrite Hs. exact HCa.
 Qed.
 
@@ -398,15 +623,34 @@ Proof.
   - apply IHe2; [exact Hr|]. intros b Hb Hwb. apply HQ; [cbn [size]; lia|exact Hwb].
 Qed.
 
+Lemma in_sum : forall (l: list ex) a, In a l -> size a <= list_sum (map size l).
+Proof.
+  induction l as [|x r IH]; intros a H; [destruct H|]. change (list_sum (map size (x :: r))) with (size x + list_sum (map size r)).
+  destruct H as [E|H]; [subst a; lia|]. specialize (IH a H). lia.
+Qed.
+
+(* the elements of an argument / comma list, given T for each *)
+Lemma list_asg : forall l, Forall T l -> Forall (fun kx => AsgS (fst kx) (snd kx)) (map (fun a => (argt a, embx a)) l).
+Proof. induction l as [|x r IH]; intros H; [constructor|]. inversion H; subst. constructor; [apply T_asg_argt; assumption|apply IH; assumption]. Qed.
+
 Theorem T_all : forall n e, size e <= n -> wf e -> T e.
 Proof.
   induction n as [|n IH]; intros e Hn Hw; [destruct e; cbn in Hn; lia|].
-  destruct e as [a|o l r|o x|b i|b ty fld|c t f|o l r]; cbn [size] in Hn; cbn [wf] in Hw.
+  assert (IHl: forall l, wfl l -> list_sum (map size l) <= n -> Forall T l).
+  { intros l Hwl Hs. apply Forall_forall. intros a Ha. apply IH; [pose proof (in_sum l a Ha); lia|].
+    exact (proj1 (Forall_forall _ _) (wfl_Forall l Hwl) a Ha). }
+  destruct e as [a|k v ty|o l r|o x|b i|b ty fld|b args|c t f|o l r|es]; cbn [size] in Hn; cbn [wf] in Hw.
   - (* identifier *)
     apply T_of_chain; try reflexivity.
     + exists K_ID, a, []. split; [reflexivity|]. split; [reflexivity|]. split; [reflexivity|]. intros H; discriminate H.
-    + exists K_ID, a, []. split; [reflexivity|left; reflexivity].
+    + exists K_ID, a, []. split; reflexivity.
     + apply R_id.
+  - (* constant *)
+    pose proof (const_ok_kind _ _ _ Hw) as Hkk. destruct (const_kind_facts _ Hkk) as (HnoID & Hsk & Hlb & Hlp).
+    apply T_of_chain; try reflexivity; cbn [RoundTripX.xt embx].
+    + exists k, v, []. split; [reflexivity|]. split; [exact Hsk|]. split; [exact Hlb|]. intros E; congruence.
+    + exists k, v, []. split; [reflexivity|]. clear -Hkk. destruct k; vm_compute in Hkk; try discriminate Hkk; reflexivity.
+    + apply R_const. exact Hw.
   - (* binary operator: the maximal operator tree, its leaves are smaller expressions *)
     set (e := XBin o l r) in *.
     assert (Hleaves: leavesg ex (LeafOK P ex opnd embx) (to_gt e)).
@@ -429,7 +673,8 @@ Proof.
     apply T_of_cond; try reflexivity; [|apply cast_to_cond; exact HCa].
     cbn [RoundTripX.xt]. unfold unop_ok in Ho. unfold opk. destruct (punct_kind_l o) as [k|]; [|discriminate Ho].
     destruct (unop_kind_facts k Ho) as (HnoLP & _ & _ & Hds & Hlb).
-    eexists; eexists; eexists. split; [reflexivity|]. split; [exact Hds|]. split; [exact Hlb|]. intros E; congruence.
+    eexists; eexists; eexists. split; [reflexivity|]. split; [|split; [exact Hlb|intros E; congruence]].
+    clear -Ho. destruct k; vm_compute in Ho; try discriminate Ho; reflexivity.
   - (* subscript *)
     destruct Hw as (Hb & Hi). assert (HTb: T b) by (apply IH; [lia|exact Hb]). assert (HTi: T i) by (apply IH; [lia|exact Hi]).
     destruct (embx_node b) as [c [fs [co EX]]].
@@ -444,24 +689,53 @@ Proof.
     + apply first_ok_app. apply T_first_opnd. exact HTb.
     + apply head_idlp_app. apply T_head_opnd. exact HTb.
     + eapply R_mem; [exact EX|exact Hm|apply T_R_opnd; exact HTb].
+  - (* function call *)
+    destruct Hw as (Hb & Hargs). assert (HTb: T b) by (apply IH; [lia|exact Hb]).
+    assert (HTa: Forall T args) by (apply IHl; [exact Hargs|lia]).
+    destruct (embx_node b) as [c [fs [co EX]]].
+    apply T_of_chain; try reflexivity; cbn [RoundTripX.xt embx].
+    + apply first_ok_app. apply T_first_opnd. exact HTb.
+    + apply head_idlp_app. apply T_head_opnd. exact HTb.
+    + destruct args as [|a1 rest].
+      * cbn [map commas]. eapply R_call0; [exact EX|apply T_R_opnd; exact HTb].
+      * inversion HTa as [|x y HT1 HTr]; subst x y. destruct (embx_node a1) as [c1 [fs1 [co1 EX1]]].
+        pose proof (R_call P (opnd b) (embx b) (argt a1) (embx a1) (map (fun a => (argt a, embx a)) rest) c fs co c1 fs1 co1 EX EX1
+                      (T_R_opnd b HTb) (T_first_argt a1 HT1) (T_asg_argt a1 HT1) (list_asg rest HTr)) as HR.
+        rewrite !map_map in HR. cbn [fst snd] in HR. cbn [map]. exact HR.
   - (* conditional operator *)
     destruct Hw as (Hc & Ht & Hf). assert (HTc: T c) by (apply IH; [lia|exact Hc]).
     assert (HTt: T t) by (apply IH; [lia|exact Ht]). assert (HTf: T f) by (apply IH; [lia|exact Hf]).
     destruct (embx_node c) as [cc [fs [co EX]]].
     apply T_of_cond; try reflexivity; cbn [RoundTripX.xt embx].
-    + apply first_ok_app. apply first_ok_parkv. exact (proj1 HTc).
-    + eapply cond_ternary; [exact EX|apply T_paren; exact HTc| |apply cast_to_cond; apply T_paren; exact HTf].
-      apply cond_to_expr; [apply first_ok_parkv; exact (proj1 HTt)|apply cast_to_cond; apply T_paren; exact HTt].
+    + apply first_ok_app. apply first_ok_parkv. exact (T_first_argt c HTc).
+    + eapply cond_ternary; [exact EX|apply T_paren_argt; exact HTc| |apply cast_to_cond; apply T_paren_argt; exact HTf].
+      apply cond_to_expr; [apply first_ok_parkv; exact (T_first_argt t HTt)|apply cast_to_cond; apply T_paren_argt; exact HTt].
   - (* assignment *)
-    destruct Hw as (Ho & Hnl & Hl & Hr). assert (HTl: T l) by (apply IH; [lia|exact Hl]). assert (HTr: T r) by (apply IH; [lia|exact Hr]).
+    destruct Hw as (Ho & Hnl & Hncl & Hl & Hr). assert (HTl: T l) by (apply IH; [lia|exact Hl]). assert (HTr: T r) by (apply IH; [lia|exact Hr]).
     destruct (embx_node l) as [c [fs [co EX]]].
     assert (Hf: first_ok (xt (XAsg o l r))) by (cbn [RoundTripX.xt]; apply first_ok_app; exact (proj1 HTl)).
     assert (HA: AsgS (xt (XAsg o l r)) (embx (XAsg o l r))).
-    { cbn [RoundTripX.xt embx]. eapply asg_assign; [exact EX|exact Ho|exact (proj1 HTl)|exact (proj1 (proj2 (proj2 (proj2 HTl))) Hnl)|].
-      destruct (isasg r); [|exact (proj2 (proj2 (proj2 (proj2 HTr))))].
+    { cbn [RoundTripX.xt embx]. eapply asg_assign; [exact EX|exact Ho|exact (proj1 HTl)|exact (proj1 (proj2 (proj2 (proj2 HTl))) Hnl Hncl)|].
+      destruct (isasg r); [|exact (T_asg_argt r HTr)].
       apply cond_to_asg; [apply first_ok_parkv; exact (proj1 HTr)|apply cast_to_cond; apply T_paren; exact HTr]. }
-    split; [exact Hf|]. split; [intros E; discriminate E|]. split; [|split; [intros E; discriminate E|exact HA]].
-    unfold RoundTripX.opnd, wrap. cbn [simple]. apply paren_to_cast; [exact Hf|apply asg_to_expr; exact HA].
+    assert (HE: ExprS (xt (XAsg o l r)) (embx (XAsg o l r))) by (apply asg_to_expr; exact HA).
+    split; [exact Hf|]. split; [intros E; discriminate E|]. split; [|split; [intros E; discriminate E|split; [intros _; exact HA|exact HE]]].
+    unfold RoundTripX.opnd, wrap, vx. cbn [simple iscomma]. apply paren_to_cast; assumption.
+  - (* comma expression *)
+    destruct Hw as (Hlen & Hes). assert (HTe: Forall T es) by (apply IHl; [exact Hes|lia]).
+    destruct es as [|e1 [|e2 rest]]; cbn [length] in Hlen; try lia.
+    inversion HTe as [|x y HT1 HTe']; subst x y. inversion HTe' as [|x y HT2 HTr]; subst x y.
+    destruct (embx_node e1) as [c1 [fs1 [co1 EX1]]].
+    pose proof (expr_comma P (argt e1) (embx e1) (argt e2) (embx e2) (map (fun a => (argt a, embx a)) rest) c1 fs1 co1 EX1
+                  (T_asg_argt e1 HT1) (T_asg_argt e2 HT2) (list_asg rest HTr)) as HE.
+    rewrite !map_map in HE. cbn [fst snd] in HE.
+    assert (Hf: first_ok (xt (XComma (e1 :: e2 :: rest)))).
+    { cbn [RoundTripX.xt map]. rewrite commas_cons. apply first_ok_app. exact (T_first_argt e1 HT1). }
+    assert (HE': ExprS (xt (XComma (e1 :: e2 :: rest))) (embx (XComma (e1 :: e2 :: rest)))) by (cbn [RoundTripX.xt embx map]; exact HE).
+    split; [exact Hf|]. split; [intros E; discriminate E|]. split; [|split; [intros _ E; discriminate E|split; [intros E; discriminate E|exact HE']]].
+    unfold RoundTripX.opnd, wrap, vx. cbn [simple iscomma].
+    apply paren_to_cast; [apply first_ok_parkv; exact Hf|].
+    apply cond_to_expr; [apply first_ok_parkv; exact Hf|apply cast_to_cond; apply paren_to_cast; assumption].
 Qed.
 
 (* parse . generate = id, token level: every expression of the language *)
